@@ -590,7 +590,7 @@ def expand(unit):
             i += 1
             continue
         if s.startswith('//@item'):
-            spec = [p.strip() for p in s[len('//@item'):].split('::')]
+            spec = [p.strip() for p in re.split(r'\s::\s', s[len('//@item'):])]
             derive = None
             exec_const = None
             if spec and spec[-1].startswith('derive('):
